@@ -34,14 +34,45 @@ ASSUMPTIONS = [
     "order ratio only asserted when the coarse energy error exceeds 1e-8*(1+|E|) (else round-off dominates; counted)",
     "set_new_initial_state variant is not used with springs on revolute joints (their tracked angle is subject to the open C24 turn-count finding)",
 ]
-REQUIRED_PROBES = {"quick": ["reverse_via_build", "reverse_via_set_new_initial_state", "order_evaluated", "drift_evaluated", "restart_interleaved"]}
+REQUIRED_PROBES = {"quick": ["configuration_dependent_mass", "reverse_via_build", "reverse_via_set_new_initial_state", "order_evaluated", "drift_evaluated", "restart_interleaved"]}
 
 
 def tight():
     return {"newton_atol": 1e-11, "newton_rtol": 1e-11, "newton_max_iter": 80}
 
 
+def gen_custom(rng, tier, index):
+    """A user-defined contribution with a configuration-dependent mass matrix (particle in polar coordinates on an
+    off-centre circular guide, spring to the origin, gravity): the scheme has to take M at the right configuration
+    in each stage."""
+    R = float(rng.uniform(0.6, 1.5))
+    c = rng.normal(size=2)
+    c *= float(rng.uniform(0.2, 0.6)) * R / np.linalg.norm(c)  # the origin stays inside the circle: r >= 0.4 R
+    polar = {
+        "m": float(rng.uniform(0.3, 3.0)),
+        "k": float(rng.uniform(0.0, 30.0)),
+        "l0": float(rng.uniform(0.3, 1.5)),
+        "grav": float(rng.choice([0.0, 9.81, rng.uniform(1, 10)])),
+        "c": c.tolist(),
+        "R": R,
+        "theta": float(rng.uniform(0, 2 * np.pi)),
+        "speed": float(rng.choice([0.0, rng.uniform(0.3, 3.0), rng.uniform(0.3, 3.0)])),
+    }
+    mode = "order" if rng.random() < 0.4 else "reverse"
+    plan = {"custom": "polar", "polar": polar, "mode": mode, "dt": float(10 ** rng.uniform(-2.6, -2.0)), "N": int(rng.integers(30, 160)), "knobs": {}}
+    if mode == "reverse":
+        plan["via"] = str(rng.choice(["build", "set_new_initial_state"]))
+    else:
+        plan["dt"] = float(10 ** rng.uniform(-2.3, -1.8))
+        plan["N"] = int(rng.integers(40, 120))
+    if rng.random() < 0.3:
+        plan["knobs"]["reuse_lu_decomposition"] = False
+    return plan
+
+
 def gen(rng, tier, index):
+    if index % 8 == 7:
+        return gen_custom(rng, tier, index)
     mode = ["reverse", "reverse", "order", "reverse", "drift", "reverse", "order", "reverse"][index % 8]
     # bounded motion (compact configuration space) for the long-horizon clause: pendulum-like joints only
     joints = ["revolute", "spherical", "fixed_distance", "rigid"] if mode == "drift" else None
@@ -124,7 +155,76 @@ def run_leg(B, spec, sim):
     return R.sol
 
 
+class _Bx:
+    contacts = ()
+
+
+def execute_custom(plan, out, log):
+    from ..custom import build_polar
+
+    mode, dt, N = plan["mode"], plan["dt"], plan["N"]
+    sim = Sim(log)
+    sim.max_decisions = 400000
+    with sim.installed():
+        try:
+            system, _, _ = build_polar(plan["polar"])
+        except (AssertionError, RuntimeError, ValueError, np.linalg.LinAlgError) as e:
+            raise Discard(f"assemble:{type(e).__name__}")
+        B = _Bx()
+        B.system = system
+        q0, u0 = system.q0.copy(), system.u0.copy()
+        scale = 1 + float(np.max(np.abs(q0))) + float(np.max(np.abs(u0)))
+        out["probes"]["configuration_dependent_mass"] += 1
+        if mode == "reverse":
+            pristine = system.deepcopy()
+            sol_f = run_leg(B, spec_for(plan, dt, N), sim)
+            qN, uN = np.array(sol_f.q[-1]), np.array(sol_f.u[-1])
+            moved = float(np.max(np.abs(qN - q0)))
+            Br = _Bx()
+            if plan["via"] == "build":
+                Br.system = build_polar(plan["polar"], state={"q": qN, "u": -uN})[0]
+            else:
+                try:
+                    pristine.set_new_initial_state(qN, -uN, t0=0.0)
+                except AssertionError:
+                    raise Discard("reversed_state_rejected")
+                Br.system = pristine
+            sol_r = run_leg(Br, spec_for(plan, dt, N), sim)
+            eq = float(np.max(np.abs(np.array(sol_r.q[-1]) - q0)))
+            eu = float(np.max(np.abs(np.array(sol_r.u[-1]) + u0)))
+            out["steps"], out["sim_time"] = 2 * N, 2 * N * dt
+            tol = 1e-7 * scale
+            if eq > tol or eu > 10 * tol:
+                out["violations"].append(
+                    violation("not_reversible", f"{plan['via']}/configuration_dependent_mass", f"forward {N} steps (dt={dt:.2e}), velocities reversed, {N} steps back: |q - q0|={eq:.3e}, |u + u0|={eu:.3e} (tol {tol:.1e}; the state moved by {moved:.2e} in between)")
+                )
+                return
+            nontrivial = moved > 1e-3
+        else:
+            sol1 = run_leg(B, spec_for(plan, dt, N), sim)
+            B2 = _Bx()
+            B2.system = build_polar(plan["polar"])[0]
+            sol2 = run_leg(B2, spec_for(plan, dt / 2, 2 * N), sim)
+            E1, E2 = energies(B, sol1), energies(B2, sol2)
+            e1, e2 = float(np.max(np.abs(E1 - E1[0]))), float(np.max(np.abs(E2 - E2[0])))
+            Es = 1 + abs(E1[0])
+            out["steps"], out["sim_time"] = 3 * N, 2 * N * dt
+            if e1 >= 1e-8 * Es and e2 > 0:
+                out["probes"]["order_evaluated"] += 1
+                ratio = e1 / e2
+                if not (2.8 <= ratio <= 5.7):
+                    out["violations"].append(violation("order_ratio", "energy/configuration_dependent_mass", f"max energy error {e1:.3e} at dt={dt:.2e} and {e2:.3e} at dt/2: ratio {ratio:.2f} outside [2.8, 5.7]"))
+                    return
+            else:
+                out["probes"]["order_roundoff_dominated"] += 1
+            nontrivial = float(np.max(np.abs(np.asarray(sol1.q)[-1] - q0))) > 1e-3
+    out["nontrivial"] = bool(nontrivial)
+    out["abstract"] = repr(("polar", mode, plan.get("via"), plan["polar"]["grav"] == 0.0, plan["polar"]["speed"] == 0.0, tuple(sorted(plan["knobs"].items()))))
+
+
 def execute(plan, out, log):
+    if plan.get("custom"):
+        return execute_custom(plan, out, log)
     scene = project_velocities(plan["scene"])
     mode, dt, N = plan["mode"], plan["dt"], plan["N"]
     sim = Sim(log)
@@ -265,6 +365,10 @@ def execute(plan, out, log):
 
 
 def shrink(plan):
+    if plan.get("custom"):
+        if plan["N"] > 10:
+            yield dict(plan, N=max(10, plan["N"] // 2))
+        return
     floor = 200 if plan["mode"] == "drift" else 10
     if plan["N"] > floor:
         yield dict(plan, N=max(floor, plan["N"] // 2), crash_at=None)
